@@ -67,6 +67,9 @@ func LoadFile(f *File) (*Program, []Issue) {
 	return p, issues
 }
 
+// WalkIdents calls f for every Gallina identifier occurring in e.
+func WalkIdents(e Expr, f func(string)) { walkIdents(e, f) }
+
 func walkIdents(e Expr, f func(string)) {
 	switch x := e.(type) {
 	case nil:
